@@ -77,6 +77,19 @@ func registerIntercepts(ex *Explorer) {
 		return newU256(c, t)
 	})
 	ex.register(zz+"Thorough", func(fr *frame, args []value) value { return fr.i.ctx.ex.Thorough })
+	// harness-controlled wall clock (see the clock stub in misc.go): ClockStart fixes the
+	// clock at an arbitrary instant and returns it (seconds), SetClock moves it
+	ex.register(zz+"ClockStart", func(fr *frame, args []value) value {
+		c := fr.i.ctx
+		t := c.nondet("clock.start", kI64)
+		c.assume(And(Ge(t, IntConst64(1577836800)), Le(t, IntConst64(4000000000))))
+		c.scratch["clock.fixed"] = t
+		return mkScalar(c, types.Int64, t)
+	})
+	ex.register(zz+"SetClock", func(fr *frame, args []value) value {
+		fr.i.ctx.scratch["clock.fixed"] = termOf(args[0])
+		return nil
+	})
 	ex.register(zz+"Symbolic", func(fr *frame, args []value) value { return true })
 	ex.register(zz+"Choose", func(fr *frame, args []value) value {
 		c := fr.i.ctx
